@@ -61,7 +61,7 @@ def main():
             if res["applies"] and res["tests_pass"]:
                 env = dict(ENV, VERIF_REPO=wt, VERIF_EVIDENCE_DIR=evd, VERIF_REPLAY_DIR=evd)
                 for c in ALL:
-                    rc, out = sh(["./check", c, "quick"], cwd="/verif", env=env, timeout=3600)
+                    rc, out = sh(["./check", c, "quick"], cwd=os.environ.get("VERIF_HOME", "/verif"), env=env, timeout=3600)
                     lines = [l[:500] for l in out.splitlines() if l.startswith(("VIOLATION", "UNDECIDED", "MECHANISM-DRIFT", "violated:"))]
                     res["checks"][c] = {"rc": rc, "lines": lines[:6]}
                     if rc == 1:
